@@ -8,3 +8,4 @@ pub mod c18;
 pub mod c05;
 pub mod conn;
 pub mod connrun;
+pub mod byterun;
